@@ -14,6 +14,8 @@ def die(how):
         faulthandler._sigsegv()
     elif how == "exit":
         os._exit(3)
+    elif how.startswith("exit:"):
+        os._exit(int(how[5:]))       # a chosen exit status (0 = looks like a clean exit, 128+n = shell-style signal codes, ...)
     time.sleep(5)
     os._exit(4)
 
